@@ -67,6 +67,7 @@ class C14(Check):
             "variant, extra fields skipped, every later field and array element intact; the reference peer must agree, also under "
             "truncation faults on the skewed traffic. distinct = hash of (kinds of appended fields, container position kinds, "
             "direction); non-trivial = a value with a non-default field after the nested object was transferred across revisions")
+    RULE = RULE + "; " + 'round 7: newer revisions ending in padding'
     TIERS = {"quick": {"runs": 480, "budget_s": 50}, "thorough": {"runs": 30000, "budget_s": 900}}
 
     def generate(self, rng: random.Random, r: int, tier: str) -> dict:
